@@ -57,7 +57,7 @@ def rich_index(rng: Any, shape: tuple[int, ...]) -> tuple[tuple[Any, ...], str]:
         elif kind in ('array', 'array2'):
             if adv_shape is None:
                 k = int(rng.integers(1, n + 3))
-                adv_shape = (2, k) if kind == 'array2' else (k,)
+                adv_shape = ((2, k) if rng.integers(2) else (1, k)) if kind == 'array2' else (k,)
             vals = rng.integers(-n, n, size=adv_shape)
             if rng.integers(4) == 0:
                 vals = np.abs(vals) % n  # non-negative only
@@ -151,6 +151,8 @@ def check_transpose(op: Any, rng: Any, mon: str) -> None:
 def case_index(rng: Any, ctx: Ctx, index: int) -> None:
     gen.begin_case(rng)
     dt = gen.case_dtype(rng)
+    if rng.integers(6) == 0:
+        dt = np.dtype(np.int32)       # selecting and scattering integer data
     skind = gen.pick(rng, ['leaf', 'leaf', 'list', 'dict', 'stokes', 'mixrank'])
     shape = tuple(int(v) for v in rng.integers(1, 5, size=int(rng.integers(1, 4))))
     if skind == 'leaf':
@@ -243,6 +245,8 @@ def case_index(rng: Any, ctx: Ctx, index: int) -> None:
 def case_pack(rng: Any, ctx: Ctx, index: int) -> None:
     gen.begin_case(rng)
     dt = gen.case_dtype(rng)
+    if rng.integers(6) == 0:
+        dt = np.dtype(np.int32)
     shape = tuple(int(v) for v in rng.integers(1, 5, size=int(rng.integers(1, 4))))
     skind = gen.pick(rng, ['leaf', 'stokes', 'list', 'dict', 'mixrank'])
     if skind == 'leaf':
@@ -259,7 +263,9 @@ def case_pack(rng: Any, ctx: Ctx, index: int) -> None:
     mask = rng.integers(0, 2, size=shape[:k]).astype(bool)
     if not mask.any():
         mask.flat[0] = True
-    LOG.case_key(f'pack:mask{k}d:rank{len(shape)}:{skind}', True)
+    if rng.integers(5) == 0:
+        mask[...] = True          # nothing is dropped (a mask of rank >= 2 still flattens the masked axes)
+    LOG.case_key(f'pack:mask{k}d{"-all" if mask.all() else ""}:rank{len(shape)}:{skind}', True)
     mon = 'C12.construct'
     try:
         op = PackOperator(jnp.asarray(mask), s)
@@ -280,6 +286,15 @@ def case_pack(rng: Any, ctx: Ctx, index: int) -> None:
     guarded('C12.transpose', lambda: check_transpose(op, rng, 'C12.transpose'))
     if dense.size_of(s) * dense.size_of(op.out_structure()) <= 900:
         guarded('C12.products', lambda: check_products(op, 'C12.products'))
+
+        def reduced() -> None:
+            r = op.reduce()
+            LOG.evaluated('C12.products')
+            m1, m2 = ref_matrix(op), dense.matrix(r)
+            if m1.shape != m2.shape or not np.array_equal(m1, m2) or not dense.struct_eq_loose(r.out_structure(), op.out_structure()):
+                LOG.violation('C12', 'C12.products', f'PackOperator.reduce/{type(r).__name__}', 'reduce() changed the pack operator', expr=dense.describe(op),
+                              mask=list(mask.shape), all_true=bool(mask.all()))
+        guarded('C12.products', reduced)
 
 
 def run(ctx: Ctx) -> None:
